@@ -81,6 +81,7 @@ def plan(tier, seed, kf_ids):
                             "the bytes of the bits" % c.alias(s, w, f),
                             timeout=600, inst=c.alias(s, w, f), bounds="all operand pairs; hasher loop unwound 18"))
     return {
+        "engine_m": ["tofixed"],
         "feature": "c03",
         "jobs": jobs,
         "functions": ["cmp.rs: PartialEq/PartialOrd between Fixed* (all family pairs), Fixed*~{i8..i128,isize,u8..u128,usize}, "
